@@ -745,7 +745,43 @@ func runC20(cfg *runCfg) error {
 	cf.result("V_nest", "c20_nest_violations nest_cases")
 	cf.result("M_nest", "c20_nest_mismatches nest_cases")
 
-	m.Evaluations = len(cases) + len(ncases)
+	// saturation family
+	ns := []int{1, 100, 1023, 1024, 1025, 5000}
+	if cfg.tier != "quick" {
+		ns = []int{1, 100, 1023, 1024, 1025, 1026, 2048, 5000, 20000, 50000}
+	}
+	var scases []string
+	for i, n := range ns {
+		for v := 0; v < 2; v++ {
+			nvals := 1
+			if v == 1 {
+				nvals = 2 + r.Intn(7)
+			}
+			for t := 0; t < 2; t++ {
+				parkShape := (i + v + t) % 3
+				targetShape := t
+				if t == 0 && parkShape == 0 && v == 0 {
+					targetShape = 2
+				}
+				for _, o := range c20SatRun(r, n, nvals, parkShape, targetShape, 2) {
+					scases = append(scases, o.coq())
+					d := o.describe()
+					m.Families["sat"] = append(m.Families["sat"], d)
+					if o.Stuck != "" {
+						m.ImplViolations = append(m.ImplViolations, map[string]interface{}{"what": o.Stuck, "case": d})
+					}
+				}
+			}
+		}
+	}
+	flushTab()
+	cf.def("sat_cases", "list c20_sat_case", cList(scases))
+	cf.result("V_sat", "c20_sat_violations sat_cases")
+	cf.result("M_sat", "c20_sat_mismatches sat_cases")
+	m.Distribution["saturation_cases"] = len(scases)
+	m.Distribution["saturation_parked_handlers"] = ns
+
+	m.Evaluations = len(cases) + len(ncases) + len(scases)
 	m.DistinctNontrivial = nontrivialCases
 	m.Rule = "a schedule case is non-trivial when at least one handler was entered after a holder of the dispatched original or of a sibling copy of the same dispatch had already mutated its message " +
 		"(earlier sibling handler wrote before the later one was entered; dispatcher wrote after ServeAsync.Serve returned and before the goroutine ran); distinct by the full (registrations, schedule, observations) text"
